@@ -801,6 +801,56 @@ func runC18(c *Ctx) {
 		}
 	}
 
+	// R11 the script setters only set their counter
+	{
+		o11 := c.Obl("R11", "test.Bridge.script-setters", "DropNextNWrites and ReorderNextNWrites store the pending counter of the direction and touch nothing else of the Bridge (messages already held back for an open reorder window, or queued, stay)", 2)
+		for _, fn := range []string{"DropNextNWrites", "ReorderNextNWrites"} {
+			f := p.Func("test", "Bridge", fn)
+			if f == nil {
+				o11.Undecide("Bridge.%s not found", fn)
+				continue
+			}
+			instrsOfU(f, func(in ssa.Instruction) {
+				var addr ssa.Value
+				switch x := in.(type) {
+				case *ssa.Store:
+					addr = x.Addr
+				case *ssa.MapUpdate:
+					addr = x.Map
+				default:
+					return
+				}
+				a := origin(addr)
+				if ia, ok := a.(*ssa.IndexAddr); ok {
+					a = origin(ia.X)
+				}
+				fr, ok := asFieldAddr(a)
+				if !ok || fr.SName != "test.Bridge" {
+					return
+				}
+				o11.Site(in.Pos(), "%s stores %s", fn, fr.Field)
+				st := structOf(fr.Base.Type())
+				isInt := false
+				if st != nil {
+					for i := 0; i < st.NumFields(); i++ {
+						if st.Field(i).Name() == fr.Field {
+							t := st.Field(i).Type().Underlying()
+							if arr, isArr := t.(*types.Array); isArr {
+								t = arr.Elem().Underlying()
+							}
+							if b, isB := t.(*types.Basic); isB && b.Info()&types.IsInteger != 0 {
+								isInt = true
+							}
+						}
+					}
+				}
+				if !isInt {
+					o11.Fail(in.Pos(), "%s writes %s: a script setter must not touch the held-back or queued messages", fn, fr.Field)
+				}
+			})
+		}
+	}
+
 	// R2w messages already handed to the peer are taken back only by an expired write deadline
 	{
 		ow := c.Obl("R2w", fname(dw), "Write receives from its own write channel (taking back messages the peer has not read yet) only on the edge where the write deadline has expired: closing an end, or writing on a closed end, leaves what was already sent to the peer", 1)
@@ -1445,10 +1495,12 @@ func dpipeReadPaths(o *Obligation, dr *ssa.Function, rField string) (int, []posM
 				}
 			}
 		}
-		if msg == nil {
+		if e := errorOperand(ret); e == nil || !isNilConst(strip(pt.valueAt(e, len(pt.Instrs)-1))) {
 			continue
 		}
-		if e := errorOperand(ret); e == nil || !isNilConst(strip(pt.valueAt(e, len(pt.Instrs)-1))) {
+		if msg == nil {
+			// one message per successful read: a read that reports success has taken a message from the channel
+			add(ret.Pos(), "Read can report success without having taken a message from the read channel (a zero-length read that consumes nothing shifts every later message by one read)")
 			continue
 		}
 		n++
